@@ -90,12 +90,22 @@ func genC14(ev *Ev) func(t *rapid.T) model.Case {
 			gss = append(gss, g)
 			ops = append(ops, op)
 		}
+		lastMod := map[int]*model.Op{}
 		nMods := rapid.IntRange(1, scale(6, 10)).Draw(t, "nmods")
 		for m := 0; m < nMods; m++ {
 			si := rapid.IntRange(0, nSess-1).Draw(t, "msess")
 			g := gss[si]
 			op := model.Op{Kind: "mod", Peer: 0, Seq: seq, Sess: si}
 			seq++
+			if prev := lastMod[si]; prev != nil && rapid.IntRange(0, 5).Draw(t, "again") == 0 {
+				// the control plane sends the same Update FARs once more (a retry whose first answer it lost, or a
+				// path switch back and forth that ends where it began): every flagged rule that has a tunnel is
+				// due a marker again - to the tunnel it used before this update, which is the one it states
+				op.UpdFARs = append([]model.FAR(nil), prev.UpdFARs...)
+				op.Note = "again"
+				ops = append(ops, op)
+				continue
+			}
 			nUpd := rapid.IntRange(1, 3).Draw(t, "nupd")
 			used := map[uint32]bool{}
 			// a handover moves every rule of the session to the same new tunnel
@@ -156,6 +166,12 @@ func genC14(ev *Ev) func(t *rapid.T) model.Case {
 					ops = append(ops, model.Op{Kind: "p4break"})
 				}
 				ops = append(ops, op)
+				if len(op.FARs) == 0 {
+					cp := op
+					lastMod[si] = &cp
+				} else {
+					delete(lastMod, si) // a Create FAR cannot be sent twice
+				}
 			}
 		}
 		return model.Case{Conf: map[string]any{"endmarker": enabled, "up4": up4}, Ops: ops}
